@@ -8,6 +8,7 @@ import (
 	"path/filepath"
 	"strconv"
 	"strings"
+	"sync"
 
 	"github.com/go-gts/gts"
 	"github.com/go-gts/gts/seqio"
@@ -28,6 +29,9 @@ var c07WorkFamilies = []string{
 	"genbank-origin-lf", "genbank-origin-crlf", "genbank-comment-lines", "genbank-keywords", "genbank-dblink", "genbank-definition-lines",
 	"genbank-contig-parts", "fasta-long-residues", "fasta-crlf", "table-order-of-complements", "loc-join-sites",
 	"loc-join-of-joins", "loc-order-of-joins", "loc-join-of-orders", "loc-join-of-complement-joins", "loc-join-abutting", "loc-join-complement-run", "loc-complement-join",
+	"table-distinct-qualifier-names", "table-distinct-keys", "table-toggle-qualifiers", "table-literal-qualifiers", "table-complement-run-join",
+	"genbank-extra-fields", "genbank-taxon-lines", "genbank-source-lines", "fasta-blank-lines",
+	"genbank-reference-long-fields", "genbank-accession-list",
 }
 
 func WorkInput(family string, n int) []byte {
@@ -122,6 +126,91 @@ func WorkInput(family string, n int) []byte {
 			return []byte(tb.String())
 		}
 		return workGenBank(tb.String(), 10*n+10, 1)
+	case "table-distinct-qualifier-names", "table-distinct-keys", "table-toggle-qualifiers", "table-literal-qualifiers":
+		// names nobody has seen before, one per feature (the readers keep registries of qualifier names)
+		for i := 0; i < n; i++ {
+			switch family {
+			case "table-distinct-qualifier-names":
+				fmt.Fprintf(&sb, "     gene            %d..%d\n                     /wq%dx=\"v\"\n", 10*i+1, 10*i+9, i)
+			case "table-distinct-keys":
+				fmt.Fprintf(&sb, "     key%-12d %d..%d\n                     /gene=\"g\"\n", i, 10*i+1, 10*i+9)
+			case "table-toggle-qualifiers":
+				fmt.Fprintf(&sb, "     gene            %d..%d\n                     /pseudo\n                     /wt%dx\n", 10*i+1, 10*i+9, i%5)
+			case "table-literal-qualifiers":
+				fmt.Fprintf(&sb, "     gene            %d..%d\n                     /codon_start=1\n                     /wl%dx=%d\n", 10*i+1, 10*i+9, i%5, i)
+			}
+		}
+	case "table-complement-run-join":
+		sb.WriteString("     CDS             join(")
+		for i := 0; i < n; i++ {
+			if i > 0 {
+				sb.WriteString(",")
+				if i%2 == 0 {
+					sb.WriteString("\n                     ")
+				}
+			}
+			fmt.Fprintf(&sb, "complement(%d..%d)", 3*i+1, 3*i+2)
+		}
+		sb.WriteString(")\n                     /gene=\"g\"\n")
+	case "genbank-extra-fields", "genbank-taxon-lines", "genbank-source-lines", "genbank-reference-long-fields", "genbank-accession-list":
+		var x strings.Builder
+		anchor := "FEATURES "
+		switch family {
+		case "genbank-extra-fields":
+			for i := 0; i < n; i++ {
+				fmt.Fprintf(&x, "XFIELD%-5d value of an unknown field\n            continued\n", i%1000)
+			}
+		case "genbank-taxon-lines":
+			anchor = "            A.\n"
+			for i := 0; i < n; i++ {
+				fmt.Fprintf(&x, "            Taxon%d; Other%d;\n", i, i)
+			}
+		case "genbank-source-lines":
+			anchor = "  ORGANISM  s\n"
+			for i := 0; i < n; i++ {
+				fmt.Fprintf(&x, "            more of the source line %d\n", i)
+			}
+		case "genbank-reference-long-fields":
+			x.WriteString("REFERENCE   1  (bases 1 to 60)\n  AUTHORS   A.,\n")
+			for i := 0; i < n; i++ {
+				fmt.Fprintf(&x, "            Author%d,B.,\n", i)
+			}
+			x.WriteString("            Last,Z.\n  TITLE     T\n")
+			for i := 0; i < n; i++ {
+				fmt.Fprintf(&x, "            title words %d\n", i)
+			}
+			x.WriteString("  JOURNAL   J\n")
+		case "genbank-accession-list":
+			anchor = "VERSION "
+			x.WriteString("            ")
+			for i := 0; i < n; i++ {
+				fmt.Fprintf(&x, "AB%06d ", i)
+				if i%6 == 5 {
+					x.WriteString("\n            ")
+				}
+			}
+			x.WriteString("\n")
+		}
+		b := workGenBank("     gene            1..9\n                     /gene=\"g\"\n", 60, 1)
+		if family == "genbank-source-lines" {
+			// SOURCE continuation lines stand before the ORGANISM line
+			return bytes.Replace(b, []byte("  ORGANISM  s\n"), []byte(x.String()+"  ORGANISM  s\n"), 1)
+		}
+		if family == "genbank-taxon-lines" {
+			return bytes.Replace(b, []byte(anchor), []byte(x.String()+anchor), 1)
+		}
+		return bytes.Replace(b, []byte(anchor), []byte(x.String()+anchor), 1)
+	case "fasta-blank-lines":
+		sb.WriteString(">r description\n")
+		for i := 0; i < n; i++ {
+			sb.WriteString("acgt\n\n")
+		}
+	case "genbank-blank-lines-between-records":
+		one := workGenBank("", 60, 1)
+		for i := 0; i < n; i++ {
+			sb.Write(one)
+			sb.WriteString("\n\n")
+		}
 	case "table-qualifiers":
 		sb.WriteString("     gene            1..9\n")
 		for i := 0; i < n; i++ {
@@ -307,32 +396,36 @@ func WorkRun(family string, in []byte) (errText string) {
 }
 
 // c07Statements measures the statements executed in github.com/go-gts/gts/... by `work family n`.
-func c07Statements(family string, n int) (work int64, hot string, err error) {
+func c07Statements(family string, n int) (work, total int64, hot string, err error) {
 	bin := os.Getenv("VERIF_WORK_BIN")
 	if bin == "" {
-		return 0, "", fmt.Errorf("no instrumented helper (VERIF_WORK_BIN)")
+		return 0, 0, "", fmt.Errorf("no instrumented helper (VERIF_WORK_BIN)")
 	}
 	dir, e := os.MkdirTemp("", "verif-work-")
 	if e != nil {
-		return 0, "", e
+		return 0, 0, "", e
 	}
 	defer os.RemoveAll(dir)
 	cmd := exec.Command(bin, family, strconv.Itoa(n))
 	cmd.Env = append(os.Environ(), "GOCOVERDIR="+dir)
 	if out, e := cmd.CombinedOutput(); e != nil {
-		return 0, "", fmt.Errorf("helper failed: %v: %s", e, firstLine(string(out)))
+		return 0, 0, "", fmt.Errorf("helper failed: %v: %s", e, firstLine(string(out)))
 	}
 	txt := filepath.Join(dir, "c.txt")
 	if out, e := exec.Command("go", "tool", "covdata", "textfmt", "-i="+dir, "-o="+txt).CombinedOutput(); e != nil {
-		return 0, "", fmt.Errorf("go tool covdata failed: %v: %s", e, firstLine(string(out)))
+		return 0, 0, "", fmt.Errorf("go tool covdata failed: %v: %s", e, firstLine(string(out)))
 	}
 	b, e := os.ReadFile(txt)
 	if e != nil {
-		return 0, "", e
+		return 0, 0, "", e
 	}
 	var hotN int64
 	for _, line := range strings.Split(string(b), "\n") {
-		if !strings.HasPrefix(line, "github.com/go-gts/gts/") {
+		// two measures: the work of gts alone (sensitive: a quadratic term in gts is not diluted), and the work of gts plus
+		// the parsing, wrapping and character-class libraries it calls (a library driven superlinearly by gts shows only
+		// there); the helper's own package, which builds the input, does not count
+		inGts := strings.HasPrefix(line, "github.com/go-gts/gts/")
+		if !inGts && !strings.HasPrefix(line, "github.com/go-pars/") && !strings.HasPrefix(line, "github.com/go-wrap/") && !strings.HasPrefix(line, "github.com/go-ascii/") {
 			continue
 		}
 		f := strings.Fields(line)
@@ -341,12 +434,16 @@ func c07Statements(family string, n int) (work int64, hot string, err error) {
 		}
 		st, _ := strconv.ParseInt(f[1], 10, 64)
 		ct, _ := strconv.ParseInt(f[2], 10, 64)
+		total += st * ct
+		if !inGts {
+			continue
+		}
 		work += st * ct
 		if st*ct > hotN {
 			hotN, hot = st*ct, f[0]
 		}
 	}
-	return work, hot, nil
+	return work, total, hot, nil
 }
 
 type c07WorkCase struct {
@@ -355,20 +452,28 @@ type c07WorkCase struct {
 	N      int    `json:"n"`
 }
 
+// c07WorkSeen keeps the statement counts measured in this run (family/n -> counts at n, 2n, 4n) for the evidence file.
+var c07WorkSeen sync.Map
+
 func c07WorkEval(c c07WorkCase) (ok bool, sig, detail string) {
-	var w [3]int64
+	var w, t [3]int64
 	var hot string
 	for k := 0; k < 3; k++ {
 		var err error
-		w[k], hot, err = c07Statements(c.Family, c.N<<uint(k))
+		w[k], t[k], hot, err = c07Statements(c.Family, c.N<<uint(k))
 		if err != nil {
 			return true, "", "not measured: " + err.Error()
 		}
 	}
 	engine.Outcome(fmt.Sprintf("work|%s|%d", c.Family, w[2]))
+	c07WorkSeen.Store(fmt.Sprintf("%s/%d", c.Family, c.N), [6]int64{w[0], w[1], w[2], t[0], t[1], t[2]})
 	r1, r2 := float64(w[1])/float64(w[0]+1), float64(w[2])/float64(w[1]+1)
 	if r1 > 2.8 || r2 > 2.8 {
 		return false, "work-superlinear:" + c.Family, fmt.Sprintf("family %s: statements executed in gts for size parameter %d, %d, %d: %d, %d, %d (x%.2f, x%.2f per doubling; linear work doubles); hottest block %s", c.Family, c.N, 2*c.N, 4*c.N, w[0], w[1], w[2], r1, r2, hot)
+	}
+	q1, q2 := float64(t[1])/float64(t[0]+1), float64(t[2])/float64(t[1]+1)
+	if q1 > 2.8 || q2 > 2.8 {
+		return false, "work-superlinear-with-libraries:" + c.Family, fmt.Sprintf("family %s: statements executed in gts and the libraries it calls for size parameter %d, %d, %d: %d, %d, %d (x%.2f, x%.2f per doubling; linear work doubles)", c.Family, c.N, 2*c.N, 4*c.N, t[0], t[1], t[2], q1, q2)
 	}
 	return true, "", ""
 }
